@@ -38,6 +38,10 @@ claim('C09', 'CrossHair symbolic execution of small_factors (symbolic n) and _ge
       'for all k, z3 regex-theory equivalence of terminal-level repetition patterns, and CrossHair-driven end-to-end parses around the bounds',
       'Bounded in n, mx, m (stated in evidence); unbounded in the repetition count k (LIA) and in the matched string (regex theory).',
       'Trusted: z3 LIA/regex theory, the compositional interval argument (sum of intervals is an interval; union checked by z3).', '3/C09')
+claim('C10', 'CrossHair symbolic execution of call histories on one instance (parse/lex/scan/interactive generators dropped part-way, failing calls, other instances, Reconstructor, Indenter) '
+      'and CrossHair-enumerated preemption-bounded schedules of two real threads making their first calls on a fresh instance (line-level stepper, symbolic switch positions)',
+      'Bounded: <= 2-3 earlier operations out of 8 kinds, 10 probes, 4-6 instance configurations; <= 3-4 context switches inside stated gap windows at line granularity in the shared-state functions.',
+      'Worker threads run untraced; only the schedule is symbolic; bytecode-level races and free-threaded builds are outside.', '3/C10')
 claim('C11', 'CrossHair solver-closed enumeration of class-strings / lexeme sequences and API choices (parse, parse_interactive+accepts, scan) against four independently obtained parsers '
       '(direct, load(save()), cache hit, generated stand-alone module executed in-process), compared structurally incl. positions and meta',
       'Bounded by input length per configuration (10 configurations: lexers, keep_all_tokens, maybe_placeholders, propagate_positions, multiple starts, bytes, global regex flags, imports+templates+priorities, 131 terminals).',
